@@ -475,6 +475,15 @@ func (ndb *nodeDB) deleteVersion(version int64, cache *rootkeyCache) error {
 	}
 
 	literalRootKey := GetRootKey(version)
+	if rootKey == nil || !bytes.Equal(rootKey, literalRootKey) {
+		// if the root key is not matched with the literal root key, it means the given root
+		// is a reference root to the previous version. The entry is deleted before the orphans,
+		// so that an interrupted pruning never leaves the version listed without its nodes.
+		if err := ndb.deleteFromPruning(ndb.nodeKey(literalRootKey)); err != nil {
+			return err
+		}
+	}
+
 	// rootOrphaned tells whether the root node of the version is removed by the next version.
 	rootOrphaned := false
 	if rootKey != nil {
@@ -501,14 +510,6 @@ func (ndb *nodeDB) deleteVersion(version int64, cache *rootkeyCache) error {
 			}
 			return ndb.deleteFromPruning(ndb.nodeKey(nk))
 		}); err != nil && !errors.Is(err, ErrVersionDoesNotExist) {
-			return err
-		}
-	}
-
-	if rootKey == nil || !bytes.Equal(rootKey, literalRootKey) {
-		// if the root key is not matched with the literal root key, it means the given root
-		// is a reference root to the previous version.
-		if err := ndb.deleteFromPruning(ndb.nodeKey(literalRootKey)); err != nil {
 			return err
 		}
 	}
